@@ -26,7 +26,9 @@ NEED_ERRORS = ["", "EVAL_FALSE", "OP_RETURN", "SCRIPTNUM", "SCRIPT_SIZE", "PUSH_
                "SIG_PUSHONLY", "SIG_HIGH_S", "SIG_NULLDUMMY", "PUBKEYTYPE", "CLEANSTACK", "MINIMALIF", "SIG_NULLFAIL", "DISCOURAGE_UPGRADABLE_NOPS",
                "DISCOURAGE_UPGRADABLE_WITNESS_PROGRAM", "WITNESS_PROGRAM_WRONG_LENGTH", "WITNESS_PROGRAM_WITNESS_EMPTY", "WITNESS_PROGRAM_MISMATCH",
                "WITNESS_MALLEATED", "WITNESS_MALLEATED_P2SH", "WITNESS_UNEXPECTED", "WITNESS_PUBKEYTYPE", "TAPSCRIPT_CHECKMULTISIG", "TAPSCRIPT_MINIMALIF",
-               "SIG_FINDANDDELETE"]
+               "SIG_FINDANDDELETE", "OP_CODESEPARATOR", "SCHNORR_SIG_SIZE", "SCHNORR_SIG_HASHTYPE", "SCHNORR_SIG", "TAPROOT_WRONG_CONTROL_SIZE",
+               "TAPSCRIPT_VALIDATION_WEIGHT", "TAPSCRIPT_EMPTY_PUBKEY", "DISCOURAGE_UPGRADABLE_TAPROOT_VERSION", "DISCOURAGE_OP_SUCCESS",
+               "DISCOURAGE_UPGRADABLE_PUBKEYTYPE"]          # = every ScriptError except UNKNOWN_ERROR
 
 
 def run(ctx):
